@@ -15,6 +15,9 @@ pub const ALPHA_MAIN: &[&str] = &[
 ];
 pub const ALPHA_STR: &[&str] = &["'", "{", "}", ":", "<", "\\", "u", "\n", "#", "-", "r", "\""];
 /// comment / line-ending mode: multi-line comments (nested), CR LF pairs inside and outside them
+/// keyword mode: keywords with multi-token lookahead (`else if`), raw-string starts, dots before
+/// keywords, next to multi-byte characters
+pub const ALPHA_KW: &[&str] = &["else", "if", "i", "f", " ", "é", "字", "😀", "\n", ".", "r", "'", "#"];
 pub const ALPHA_CMT: &[&str] = &["#", "-", "\r", "\n", "a", " ", "'"];
 
 #[derive(Default)]
@@ -392,6 +395,10 @@ pub fn run(args: &Args) -> i32 {
         Tier::Quick => (5usize, 6usize),
         Tier::Thorough => (6, 8),
     };
+    let n_kw = match args.tier {
+        Tier::Quick => 5usize,
+        Tier::Thorough => 6,
+    };
     let n_cmt = match args.tier {
         Tier::Quick => 7usize,
         Tier::Thorough => 9,
@@ -402,7 +409,7 @@ pub fn run(args: &Args) -> i32 {
     let mut distinct: HashSet<u64> = HashSet::new();
     let mut samples = Samples::new(6);
     let mut fail_count = 0usize;
-    for (alpha, n) in [(ALPHA_MAIN, n_main), (ALPHA_STR, n_str), (ALPHA_CMT, n_cmt)] {
+    for (alpha, n) in [(ALPHA_MAIN, n_main), (ALPHA_STR, n_str), (ALPHA_CMT, n_cmt), (ALPHA_KW, n_kw)] {
         let outs = explore_alphabet(alpha, n, 5);
         for o in outs {
             total.strings += o.stats.strings;
@@ -497,7 +504,7 @@ pub fn run(args: &Args) -> i32 {
     report.cov(
         "rule",
         format!(
-            "every string of length <= {n_main} over the {}-symbol alphabet {:?} and of length <= {n_str} over the {}-symbol string-mode alphabet {:?} and of length <= {n_cmt} over the comment/line-ending alphabet {ALPHA_CMT:?} (prefix tree: a state is a string, a transition appends one symbol), plus {} corpus files/doc blocks cut at {} char boundaries; the real lexer runs on every one (no model). distinct_nontrivial = distinct token-kind sequences among the strings of length <= 5",
+            "every string of length <= {n_main} over the {}-symbol alphabet {:?} and of length <= {n_str} over the {}-symbol string-mode alphabet {:?} and of length <= {n_cmt} over the comment/line-ending alphabet {ALPHA_CMT:?} and of length <= {n_kw} over the keyword-lookahead alphabet {ALPHA_KW:?} (prefix tree: a state is a string, a transition appends one symbol), plus {} corpus files/doc blocks cut at {} char boundaries; the real lexer runs on every one (no model). distinct_nontrivial = distinct token-kind sequences among the strings of length <= 5",
             ALPHA_MAIN.len(), ALPHA_MAIN, ALPHA_STR.len(), ALPHA_STR, corpus.len(), corpus_prefixes
         ),
     );
